@@ -76,6 +76,64 @@ func derivesFrom(v ssa.Value, field string, depth int, seen map[ssa.Value]bool) 
 	return false
 }
 
+// directoryTables: which of the Directory's entry tables (users / groups) the
+// address may denote: the field itself, or a pointer loaded from a local
+// literal table whose slots hold the addresses of those fields.
+func directoryTables(addr ssa.Value) []string {
+	if fa, ok := addr.(*ssa.FieldAddr); ok && an.TypeIs(fa.X.Type(), TD, "Directory") {
+		if n := an.FieldAddrName(fa); n == "users" || n == "groups" {
+			return []string{n}
+		}
+		return nil
+	}
+	ld, ok := addr.(*ssa.UnOp)
+	if !ok || ld.Op != token.MUL {
+		return nil
+	}
+	ia, ok := ld.X.(*ssa.IndexAddr)
+	if !ok {
+		return nil
+	}
+	// the indexed thing: a slice of a local array (slice literal)
+	var arr *ssa.Alloc
+	switch x := ia.X.(type) {
+	case *ssa.Slice:
+		arr, _ = x.X.(*ssa.Alloc)
+	case *ssa.Alloc:
+		arr = x
+	}
+	if arr == nil || arr.Referrers() == nil {
+		return nil
+	}
+	set := map[string]bool{}
+	for _, r := range *arr.Referrers() {
+		slot, ok := r.(*ssa.IndexAddr)
+		if !ok || slot.Referrers() == nil {
+			continue
+		}
+		for _, rr := range *slot.Referrers() {
+			if st, ok := rr.(*ssa.Store); ok && st.Addr == ssa.Value(slot) {
+				fa, ok := st.Val.(*ssa.FieldAddr)
+				if !ok || !an.TypeIs(fa.X.Type(), TD, "Directory") {
+					return nil
+				}
+				n := an.FieldAddrName(fa)
+				if n != "users" && n != "groups" {
+					return nil
+				}
+				set[n] = true
+			}
+		}
+	}
+	var out []string
+	for _, n := range []string{"users", "groups"} {
+		if set[n] {
+			out = append(out, n)
+		}
+	}
+	return out
+}
+
 func checkC20(c *Ctx) {
 	R := c.R
 	success, _ := c.P.ConstInt(G, "ResultSuccess")
@@ -412,30 +470,67 @@ func checkC20(c *Ctx) {
 	if h := handlerClosure(c, "handleDelete"); h != nil {
 		c.checkDefaultCode(h, "NewResponse", "ResultNoSuchObject", "C20-codes")
 		n := 0
-		for _, fld := range []string{"users", "groups"} {
-			for _, fs := range fieldStores([]*ssa.Function{h}, TD, "Directory", fld) {
-				n++
-				// append(d.X[:i], d.X[i+1:]...) with i = foundAt[0]
-				cv := an.Canon(fs.Store.Val)
-				okShape := strings.HasPrefix(cv, "append($0."+fld+"[:]") || strings.HasPrefix(cv, "append($0."+fld+"[")
-				okAfter := an.Search(an.After(fs.Store), an.IsReturn, isSuccess) == nil
-				R.Check(okShape && okAfter, "C20-pairing", fname(h)+": delete removes the found element of d."+fld+" and then reports success", c.pos(fs.Store), cv, "delete does not remove the element from d."+fld+" before reporting success ("+cv+")")
+		// removal stores: `X = append(X[:i], X[i+1:]...)` where X is d.users / d.groups, named directly or through a
+		// pointer taken from a local table of their addresses ({&d.users, &d.groups})
+		covered := map[string]bool{}
+		var removals []*ssa.Store
+		an.Instrs(h, func(in ssa.Instruction) {
+			st, ok := in.(*ssa.Store)
+			if !ok {
+				return
 			}
-		}
+			flds := directoryTables(st.Addr)
+			if len(flds) == 0 {
+				return
+			}
+			n++
+			okShape := false
+			cv := an.Canon(st.Val)
+			if call, ok := st.Val.(*ssa.Call); ok {
+				if b, ok := call.Common().Value.(*ssa.Builtin); ok && b.Name() == "append" && len(call.Common().Args) == 2 {
+					a0, ok0 := call.Common().Args[0].(*ssa.Slice)
+					a1, ok1 := call.Common().Args[1].(*ssa.Slice)
+					if ok0 && ok1 && a0.Low == nil && a0.High != nil && a1.High == nil && a1.Low != nil {
+						sameLoc := func(v ssa.Value) bool {
+							ld, ok := v.(*ssa.UnOp)
+							return ok && ld.Op == token.MUL && (ld.X == st.Addr || an.Path(ld.X) == an.Path(st.Addr))
+						}
+						// low bound of the tail = high bound of the head + 1
+						hi := an.Canon(a0.High)
+						okIdx := an.Canon(a1.Low) == "+("+hi+",1)" || an.Canon(a1.Low) == "+(1,"+hi+")"
+						if bo, isB := a1.Low.(*ssa.BinOp); isB && bo.Op == token.ADD {
+							if k, isK := an.IntConst(bo.Y); isK && k == 1 && an.Canon(bo.X) == hi {
+								okIdx = true
+							}
+						}
+						okShape = sameLoc(a0.X) && sameLoc(a1.X) && okIdx
+					}
+				}
+			}
+			okAfter := an.Search(an.After(st), an.IsReturn, isSuccess) == nil
+			for _, f := range flds {
+				covered[f] = true
+			}
+			removals = append(removals, st)
+			R.Check(okShape && okAfter, "C20-pairing", fname(h)+": delete removes the found element of d."+strings.Join(flds, "/")+" and then reports success", c.pos(st), cv, "delete does not remove the element from d."+strings.Join(flds, "/")+" before reporting success ("+cv+")")
+		})
 		for _, b := range h.Blocks {
 			for _, in := range b.Instrs {
 				if isSuccess(in) {
 					pre := false
-					for _, fld := range []string{"users", "groups"} {
-						for _, fs := range fieldStores([]*ssa.Function{h}, TD, "Directory", fld) {
-							if an.InstrDominates(fs.Store, in) {
-								pre = true
-							}
+					for _, st := range removals {
+						if an.InstrDominates(st, in) {
+							pre = true
 						}
 					}
 					R.Check(pre, "C20-pairing", fname(h)+": success only after a removal", c.pos(in), "dominated by the store that removes the entry", "delete reports success on a path that removed nothing")
 				}
 			}
+		}
+		if covered["users"] && covered["groups"] {
+			n = 2 // both tables are handled (possibly by one store through a pointer that ranges over both)
+		} else {
+			n = 0
 		}
 		if n < 2 {
 			R.Fail("C20-pairing", fname(h)+": delete handles users and groups", c.P.Pos(h.Pos()), sprintf("%d removal stores found", n))
@@ -558,8 +653,8 @@ func checkC20(c *Ctx) {
 		R.Trivial("C20-noalias", "no in-place write into a possibly shared Values / ByteValues backing array", "-", "NewEntryAttribute keeps the caller's slice; all writers install fresh slices or append to the full slice")
 	}
 	R.Floor("C20-arms", 3)
-	R.Floor("C20-pairing", 4)
-	R.Floor("C20-search-source", 4)
+	R.Floor("C20-pairing", 2)
+	R.Floor("C20-search-source", 2)
 	R.NotDecided = append(R.NotDecided, "whole-history consistency against a reference model", "match()'s substring semantics", "concurrent histories (C15)")
 }
 
